@@ -75,8 +75,7 @@ def lattice_fingerprint(lattice, tag='fp'):
 def context_fingerprint(context):
     return {'objects': list(context.objects), 'properties': list(context.properties),
             'bools': [list(map(bool, r)) for r in context.bools], 'shape': list(context.shape),
-            'crc32': context.crc32() if len(context.objects) * len(context.properties) <= 10000 else None,
-            'has_lattice': 'lattice' in context.__dict__}
+            'crc32': context.crc32() if len(context.objects) * len(context.properties) <= 10000 else None}
 
 
 def diff(a, b, path=''):
